@@ -163,7 +163,7 @@ def _elu_jvp_rule(
     primals: tuple[ArrayLike, ...], tangents: tuple[ArrayLike, ...], **params: object
 ) -> tuple[ArrayLike, ArrayLike]:
     alpha_param = params.get("alpha", 1.0)
-    alpha = float(alpha_param) if isinstance(alpha_param, (int, float)) else 1.0
+    alpha = float(alpha_param)
 
     (x,) = primals
     (x_dot,) = tangents
